@@ -1,5 +1,286 @@
-use crate::mc::Eng;
+//! C03 — combined data carry the newest contributing timestamp; selection picks the newest.
+use crate::env::*;
+use crate::mc::*;
 use crate::Ctx;
-pub fn run(_ctx: &Ctx) -> Vec<Eng> {
-    vec![]
+use rrtk::*;
+
+const TS: [i64; 9] = [i64::MIN, i64::MIN + 1, -2, -1, 0, 1, 2, i64::MAX - 1, i64::MAX];
+
+fn same<T: Payload>(a: &T, b: &T) -> bool {
+    let (x, y) = (a.bits(), b.bits());
+    (0..4).all(|i| {
+        x[i] == y[i] || (i < 3 && f32::from_bits(x[i]).is_nan() && f32::from_bits(y[i]).is_nan())
+    })
+}
+
+struct Tab<'a> {
+    eng: &'a mut Eng,
+    impls: std::collections::BTreeSet<&'static str>,
+}
+
+impl<'a> Tab<'a> {
+    /// binary form: Datum op Datum -> Datum with time max
+    fn bin<T: Payload + Copy, U: Copy, O: Payload>(&mut self, id: &'static str, name: &str, a: T, b: U, f: impl Fn(Datum<T>, Datum<U>) -> Datum<O>, raw: impl Fn(T, U) -> O) {
+        self.impls.insert(id);
+        for &t1 in &TS {
+            for &t2 in &TS {
+                self.eng.executions += 1;
+                self.eng.states += 1;
+                self.eng.transitions += 1;
+                self.eng.checks += 1;
+                if t1 != t2 {
+                    self.eng.nontrivial += 1;
+                }
+                let r = guard(|| f(Datum::new(Time(t1), a), Datum::new(Time(t2), b)));
+                match r {
+                    Err(m) => self.eng.violation(&format!("datum:{}:panic", name), 2, || format!("times ({}, {}): {}", t1, t2, m)),
+                    Ok(d) => {
+                        self.eng.outcome(h64(&(name, d.time.0, d.value.bits())));
+                        if d.time.0 != t1.max(t2) {
+                            self.eng.violation(&format!("datum:{}:time", name), 2, || {
+                                format!("operand times ({}, {}) gave result time {} (expected the newer, {})", t1, t2, d.time.0, t1.max(t2))
+                            });
+                        }
+                        if !same(&d.value, &raw(a, b)) {
+                            self.eng.violation(&format!("datum:{}:value", name), 2, || format!("times ({}, {}): payload differs from the raw operator", t1, t2));
+                        }
+                    }
+                }
+            }
+        }
+    }
+    /// scalar form: time unchanged
+    fn sca<T: Payload + Copy, O: Payload>(&mut self, id: &'static str, name: &str, a: T, f: impl Fn(Datum<T>) -> Datum<O>, raw: impl Fn(T) -> O) {
+        self.impls.insert(id);
+        for &t1 in &TS {
+            self.eng.executions += 1;
+            self.eng.states += 1;
+            self.eng.transitions += 1;
+            self.eng.checks += 1;
+            let r = guard(|| f(Datum::new(Time(t1), a)));
+            match r {
+                Err(m) => self.eng.violation(&format!("datum:{}:panic", name), 1, || format!("time {}: {}", t1, m)),
+                Ok(d) => {
+                    self.eng.outcome(h64(&(name, d.time.0, d.value.bits())));
+                    if d.time.0 != t1 {
+                        self.eng.violation(&format!("datum:{}:time", name), 1, || format!("operand time {} gave result time {} (a bare scalar must not change it)", t1, d.time.0));
+                    }
+                    if !same(&d.value, &raw(a)) {
+                        self.eng.violation(&format!("datum:{}:value", name), 1, || format!("time {}: payload differs from the raw operator", t1));
+                    }
+                }
+            }
+        }
+    }
+}
+
+fn datum_ops(eng: &mut Eng) {
+    let mut t = Tab { eng, impls: Default::default() };
+    let (fa, fb) = (6.5f32, -2.0f32);
+    let (qa, qb) = (Quantity::new(6.5, MILLIMETER), Quantity::new(-2.0, MILLIMETER));
+    let (sa, sb) = (State::new_raw(1.0, -2.0, 4.0), State::new_raw(0.5, 8.0, -16.0));
+    let (ca, cb) = (Command::Velocity(3.0), Command::Velocity(-0.25));
+    macro_rules! assign {
+        ($op:tt) => {
+            |mut a, b| {
+                a $op b;
+                a
+            }
+        };
+    }
+    // generic impls, one id per impl block in src/datum.rs
+    t.sca("not", "not<bool>", true, |d| !d, |v| !v);
+    t.sca("neg", "neg<f32>", fa, |d| -d, |v| -v);
+    t.sca("neg", "neg<Quantity>", qa, |d| -d, |v| -v);
+    t.sca("neg", "neg<State>", sa, |d| -d, |v| -v);
+    t.sca("neg", "neg<Command>", ca, |d| -d, |v| -v);
+    t.bin("add", "add<f32>", fa, fb, |a, b| a + b, |a, b| a + b);
+    t.bin("add", "add<Quantity>", qa, qb, |a, b| a + b, |a, b| a + b);
+    t.bin("add", "add<State>", sa, sb, |a, b| a + b, |a, b| a + b);
+    t.bin("add", "add<Command>", ca, cb, |a, b| a + b, |a, b| a + b);
+    t.bin("sub", "sub<f32>", fa, fb, |a, b| a - b, |a, b| a - b);
+    t.bin("sub", "sub<Quantity>", qa, qb, |a, b| a - b, |a, b| a - b);
+    t.bin("sub", "sub<State>", sa, sb, |a, b| a - b, |a, b| a - b);
+    t.bin("sub", "sub<Command>", ca, cb, |a, b| a - b, |a, b| a - b);
+    t.bin("mul", "mul<f32>", fa, fb, |a, b| a * b, |a, b| a * b);
+    t.bin("mul", "mul<Quantity>", qa, qb, |a, b| a * b, |a, b| a * b);
+    t.bin("div", "div<f32>", fa, fb, |a, b| a / b, |a, b| a / b);
+    t.bin("div", "div<Quantity>", qa, qb, |a, b| a / b, |a, b| a / b);
+    t.bin("add_assign", "add_assign<f32>", fa, fb, assign!(+=), |a, b| a + b);
+    t.bin("add_assign", "add_assign<Quantity>", qa, qb, assign!(+=), |a, b| a + b);
+    t.bin("add_assign", "add_assign<State>", sa, sb, assign!(+=), |a, b| a + b);
+    t.bin("add_assign", "add_assign<Command>", ca, cb, assign!(+=), |a, b| a + b);
+    t.bin("sub_assign", "sub_assign<f32>", fa, fb, assign!(-=), |a, b| a - b);
+    t.bin("sub_assign", "sub_assign<Quantity>", qa, qb, assign!(-=), |a, b| a - b);
+    t.bin("sub_assign", "sub_assign<State>", sa, sb, assign!(-=), |a, b| a - b);
+    t.bin("sub_assign", "sub_assign<Command>", ca, cb, assign!(-=), |a, b| a - b);
+    t.bin("mul_assign", "mul_assign<f32>", fa, fb, assign!(*=), |a, b| a * b);
+    t.bin("mul_assign", "mul_assign<Quantity>", qa, qb, assign!(*=), |a, b| a * b);
+    t.bin("div_assign", "div_assign<f32>", fa, fb, assign!(/=), |a, b| a / b);
+    t.bin("div_assign", "div_assign<Quantity>", qa, qb, assign!(/=), |a, b| a / b);
+    // scalar forms
+    t.sca("add_scalar", "add_scalar<f32>", fa, |d| d + fb, |v| v + fb);
+    t.sca("add_scalar", "add_scalar<Quantity>", qa, |d| d + qb, |v| v + qb);
+    t.sca("add_scalar", "add_scalar<State>", sa, |d| d + sb, |v| v + sb);
+    t.sca("add_scalar", "add_scalar<Command>", ca, |d| d + cb, |v| v + cb);
+    t.sca("sub_scalar", "sub_scalar<f32>", fa, |d| d - fb, |v| v - fb);
+    t.sca("sub_scalar", "sub_scalar<Quantity>", qa, |d| d - qb, |v| v - qb);
+    t.sca("sub_scalar", "sub_scalar<State>", sa, |d| d - sb, |v| v - sb);
+    t.sca("sub_scalar", "sub_scalar<Command>", ca, |d| d - cb, |v| v - cb);
+    t.sca("mul_scalar", "mul_scalar<f32>", fa, |d| d * fb, |v| v * fb);
+    t.sca("mul_scalar", "mul_scalar<Quantity>", qa, |d| d * qb, |v| v * qb);
+    t.sca("div_scalar", "div_scalar<f32>", fa, |d| d / fb, |v| v / fb);
+    t.sca("div_scalar", "div_scalar<Quantity>", qa, |d| d / qb, |v| v / qb);
+    macro_rules! sassign {
+        ($op:tt, $b:expr) => {
+            |mut d| {
+                d $op $b;
+                d
+            }
+        };
+    }
+    t.sca("add_assign_scalar", "add_assign_scalar<f32>", fa, sassign!(+=, fb), |v| v + fb);
+    t.sca("add_assign_scalar", "add_assign_scalar<Quantity>", qa, sassign!(+=, qb), |v| v + qb);
+    t.sca("add_assign_scalar", "add_assign_scalar<State>", sa, sassign!(+=, sb), |v| v + sb);
+    t.sca("add_assign_scalar", "add_assign_scalar<Command>", ca, sassign!(+=, cb), |v| v + cb);
+    t.sca("sub_assign_scalar", "sub_assign_scalar<f32>", fa, sassign!(-=, fb), |v| v - fb);
+    t.sca("sub_assign_scalar", "sub_assign_scalar<Quantity>", qa, sassign!(-=, qb), |v| v - qb);
+    t.sca("sub_assign_scalar", "sub_assign_scalar<State>", sa, sassign!(-=, sb), |v| v - sb);
+    t.sca("sub_assign_scalar", "sub_assign_scalar<Command>", ca, sassign!(-=, cb), |v| v - cb);
+    t.sca("mul_assign_scalar", "mul_assign_scalar<f32>", fa, sassign!(*=, fb), |v| v * fb);
+    t.sca("mul_assign_scalar", "mul_assign_scalar<Quantity>", qa, sassign!(*=, qb), |v| v * qb);
+    t.sca("div_assign_scalar", "div_assign_scalar<f32>", fa, sassign!(/=, fb), |v| v / fb);
+    t.sca("div_assign_scalar", "div_assign_scalar<Quantity>", qa, sassign!(/=, qb), |v| v / qb);
+    // dedicated State / Command impls
+    t.bin("state_mul_datum", "state*datum<f32>", sa, fb, |a, b| a * b, |a, b| a * b);
+    t.bin("state_mul_assign_datum", "state*=datum<f32>", sa, fb, assign!(*=), |a, b| a * b);
+    t.sca("state_mul_f32", "state*f32", sa, |d| d * fb, |v| v * fb);
+    t.sca("state_mul_assign_f32", "state*=f32", sa, sassign!(*=, fb), |v| v * fb);
+    t.bin("state_div_datum", "state/datum<f32>", sa, fb, |a, b| a / b, |a, b| a / b);
+    t.bin("state_div_assign_datum", "state/=datum<f32>", sa, fb, assign!(/=), |a, b| a / b);
+    t.sca("state_div_f32", "state/f32", sa, |d| d / fb, |v| v / fb);
+    t.sca("state_div_assign_f32", "state/=f32", sa, sassign!(/=, fb), |v| v / fb);
+    t.bin("command_mul_datum", "command*datum<f32>", ca, fb, |a, b| a * b, |a, b| a * b);
+    t.bin("command_mul_assign_datum", "command*=datum<f32>", ca, fb, assign!(*=), |a, b| a * b);
+    t.sca("command_mul_f32", "command*f32", ca, |d| d * fb, |v| v * fb);
+    t.sca("command_mul_assign_f32", "command*=f32", ca, sassign!(*=, fb), |v| v * fb);
+    t.bin("command_div_datum", "command/datum<f32>", ca, fb, |a, b| a / b, |a, b| a / b);
+    t.bin("command_div_assign_datum", "command/=datum<f32>", ca, fb, assign!(/=), |a, b| a / b);
+    t.sca("command_div_f32", "command/f32", ca, |d| d / fb, |v| v / fb);
+    t.sca("command_div_assign_f32", "command/=f32", ca, sassign!(/=, fb), |v| v / fb);
+    let covered = t.impls.len();
+    // cross-check the table against the source: every `impl ... for Datum<...>` block is covered
+    let src = std::fs::read_to_string("/repo/src/datum.rs").expect("cannot read /repo/src/datum.rs");
+    let in_source = src.lines().filter(|l| l.starts_with("impl") && l.contains(" for Datum<")).count();
+    eng.count("datum_operator_impls_in_source", in_source as i128);
+    eng.count("datum_operator_impls_in_table", covered as i128);
+    if in_source != covered {
+        panic!(
+            "harness table covers {} Datum operator impls but src/datum.rs has {}: the C03 table must be extended",
+            covered, in_source
+        );
+    }
+    eng.sample(|| "add_assign<Quantity>: Datum(t=i64::MIN+1, 6.5 mm) += Datum(t=-2, -2 mm) -> time -2".to_string());
+}
+
+fn helpers(eng: &mut Eng) {
+    for &t1 in &TS {
+        for &t2 in &TS {
+            eng.executions += 1;
+            eng.states += 1;
+            eng.transitions += 5;
+            eng.checks += 5;
+            if t1 != t2 {
+                eng.nontrivial += 1;
+            }
+            let case = || format!("slot time {} candidate time {}", t1, t2);
+            // replace_if_older_than
+            let mut d = Datum::new(Time(t1), 1.0f32);
+            let c = Datum::new(Time(t2), 2.0f32);
+            let r = d.replace_if_older_than(c);
+            let should = t2 > t1;
+            if r != should || d != if should { c } else { Datum::new(Time(t1), 1.0f32) } {
+                eng.violation("datum:replace_if_older_than", 2, || format!("{}: returned {} slot now {:?}", case(), r, d));
+            }
+            // replace_if_none_or_older_than
+            let mut o = Some(Datum::new(Time(t1), 1.0f32));
+            let r = o.replace_if_none_or_older_than(c);
+            if r != should || o != Some(if should { c } else { Datum::new(Time(t1), 1.0f32) }) {
+                eng.violation("datum:replace_if_none_or_older_than", 2, || format!("{}: returned {} slot now {:?}", case(), r, o));
+            }
+            let mut o = Some(Datum::new(Time(t1), 1.0f32));
+            let r = o.replace_if_none_or_older_than_option(Some(c));
+            if r != should || o != Some(if should { c } else { Datum::new(Time(t1), 1.0f32) }) {
+                eng.violation("datum:replace_if_none_or_older_than_option", 2, || format!("{}: returned {} slot now {:?}", case(), r, o));
+            }
+            // latest
+            let a = Datum::new(Time(t1), 1.0f32);
+            let l = latest(a, c);
+            if !((l == a || l == c) && l.time.0 >= t1 && l.time.0 >= t2) {
+                eng.violation("datum:latest", 2, || format!("{}: latest returned {:?}", case(), l));
+            }
+            let l = latest(c, a);
+            if !((l == a || l == c) && l.time.0 >= t1 && l.time.0 >= t2) {
+                eng.violation("datum:latest", 2, || format!("{} (swapped): latest returned {:?}", case(), l));
+            }
+            eng.outcome(h64(&(t1 > t2, t1 == t2, l.time.0)));
+        }
+        // empty slot / empty candidate
+        let c = Datum::new(Time(t1), 2.0f32);
+        let mut o: Option<Datum<f32>> = None;
+        let r = o.replace_if_none_or_older_than(c);
+        if !r || o != Some(c) {
+            eng.violation("datum:replace_if_none_or_older_than:empty-slot", 1, || format!("candidate time {}", t1));
+        }
+        let mut o: Option<Datum<f32>> = None;
+        let r = o.replace_if_none_or_older_than_option(Some(c));
+        if !r || o != Some(c) {
+            eng.violation("datum:replace_if_none_or_older_than_option:empty-slot", 1, || format!("candidate time {}", t1));
+        }
+        let mut o = Some(c);
+        let r = o.replace_if_none_or_older_than_option(None);
+        if r || o != Some(c) {
+            eng.violation("datum:replace_if_none_or_older_than_option:empty-candidate", 1, || format!("slot time {}", t1));
+        }
+        let mut o: Option<Datum<f32>> = None;
+        let r = o.replace_if_none_or_older_than_option(None);
+        if r || o.is_some() {
+            eng.violation("datum:replace_if_none_or_older_than_option:both-empty", 1, || String::new());
+        }
+        eng.executions += 4;
+        eng.checks += 4;
+    }
+    eng.sample(|| "replace_if_older_than: slot time i64::MAX-1, candidate time i64::MAX -> replaced, returns true".to_string());
+}
+
+pub fn run(ctx: &Ctx) -> Vec<Eng> {
+    let mut e1 = Eng::new(
+        "c03-datum-operators",
+        "every Datum operator impl of src/datum.rs (table cross-checked against the source; a missing impl is a machinery error) instantiated for every payload type it admits x all 81 ordered pairs of the timestamp alphabet {MIN, MIN+1, -2..2, MAX-1, MAX}; result time = newer operand (scalar forms: unchanged), payload = raw operator; non-trivial = the two timestamps differ",
+        "34 impl blocks, 85 instantiations x 81 pairs (scalar forms x 9)",
+    );
+    datum_ops(&mut e1);
+    let mut e2 = Eng::new(
+        "c03-selection-helpers",
+        "replace_if_older_than, replace_if_none_or_older_than(_option), latest() (both argument orders) on all 81 timestamp pairs plus empty slot / empty candidate; non-trivial = timestamps differ",
+        "81 pairs + 9 x 4 empty cases",
+    );
+    helpers(&mut e2);
+    let (mw, mn) = if ctx.thorough { (6, 7) } else { (5, 5) };
+    let mut e3 = Eng::new(
+        "c03-stream-timestamps",
+        "the C02 combinator enumeration (all category assignments x all weak timestamp orders) with only the timestamp oracle evaluated: arithmetic/logic streams stamp with the newest contributing input, newest-of returns a candidate no other candidate is strictly newer than",
+        &format!("arities 1..={}, fixed-arity combinators x 7 timestamp relations", mn),
+    );
+    crate::c02::run_nary(&mut e3, mw, mn, true);
+    crate::c02::run_fixed(&mut e3, true);
+    let mut e4 = Eng::new(
+        "c03-terminal-timestamps",
+        "terminal state averaging / command selection / combined read over all presence combinations x weak timestamp orders (engine shared with C09)",
+        "see c09-read-values",
+    );
+    crate::c09::values(&mut e4);
+    let mut v = vec![e1, e2, e3, e4];
+    v.extend(crate::c08::run_time_mode(ctx));
+    v
 }
